@@ -76,6 +76,17 @@ SplitPrim(k, i) ==
                                [@[m] EXCEPT !.coef = InsertAt2([@ EXCEPT ![i] = @ \div 2], i, @[i] \div 2)]]]
   /\ last' = <<"split_primitive", k, i>>
 
+\* C13: a primitive is split into two copies and every column keeps its WHOLE coefficient on one of them (odd columns on
+\* the first copy, even columns on the second): the zero padding with which segmented tables are stored as one
+\* generalized shell; with a single column the second copy is a primitive no contraction uses
+PadPrim(k, i) ==
+  /\ GenContraction /\ i <= Len(basis[k].prims) /\ Len(basis[k].prims) < 5
+  /\ basis' = [basis EXCEPT ![k].prims = InsertAt2(@, i, @[i]),
+                            ![k].cols = [m \in 1..Len(@) |->
+                               [@[m] EXCEPT !.coef = IF m % 2 = 1 THEN InsertAt2(@, i + 1, 0)
+                                                                  ELSE InsertAt2([@ EXCEPT ![i] = 0], i + 1, @[i])]]]
+  /\ last' = <<"pad_primitive", k, i>>
+
 \* C13: a column is multiplied by a factor (positive: nothing changes; negative: that function changes sign)
 Factors == {<<1048576, 1>>, <<-1, 1>>, <<-3, 1048576>>, <<1, 4096>>}
 ScaleColumn(k, m, f) ==
@@ -95,6 +106,7 @@ Next ==
      \/ \E k \in 1..Len(basis) : SplitGeneralized(k)
      \/ \E k \in 1..Len(basis) : \E i, j \in 1..5 : PermutePrims(k, i, j)
      \/ \E k \in 1..Len(basis) : \E i \in 1..5 : SplitPrim(k, i)
+     \/ \E k \in 1..Len(basis) : \E i \in 1..5 : PadPrim(k, i)
      \/ \E k \in 1..Len(basis) : \E m \in 1..4 : \E f \in Factors : ScaleColumn(k, m, f)
 
 Spec == Init /\ [][Next]_vars
